@@ -114,7 +114,7 @@ def corpus_charts():
 TAGS = ["WARP", "WARP_END", "BPM", "DELAY", "DELAY_END", "STOP", "STOP_END"]
 
 
-def timing(rng, small=False, max_beat=None):
+def timing(rng, small=False, max_beat=None, zero=False):
     """random timing data inside the domain of C11-C13: first BPM at beat 0, positive BPMs, strictly increasing
     tick-aligned beats per list, positive pause and warp lengths; returns dict of lists of (Fraction beat, Decimal value)"""
     hi = max_beat or rng.choice([2, 4, 8, 16, 50, 400])
@@ -127,8 +127,12 @@ def timing(rng, small=False, max_beat=None):
         return sorted(bs)
     nmax = 4 if small else 12
     def bpmv(): return rng.choice([Decimal(rng.choice([60, 90, 120, 128, 150, 175, 180, 200, 240])), Decimal(rng.randrange(1000, 2000000)) / 1000])
-    def pausev(): return rng.choice([Decimal("0.5"), Decimal("1"), Decimal("0.25"), Decimal("2"), Decimal(rng.randrange(1, 5000)) / 1000])
-    def warpv(): return rng.choice([Decimal("0.5"), Decimal("1"), Decimal("2"), Decimal("0.25"), Decimal("4"), Decimal("1.5"),
+    def pausev():
+        if zero and rng.random() < .25: return Decimal("0.000")      # zero-length stops and delays (C11Wide.Dom0)
+        return rng.choice([Decimal("0.5"), Decimal("1"), Decimal("0.25"), Decimal("2"), Decimal(rng.randrange(1, 5000)) / 1000])
+    def warpv():
+        if zero and rng.random() < .2: return rng.choice([Decimal("0.000"), Decimal("0.004")])      # a warp of zero ticks
+        return rng.choice([Decimal("0.5"), Decimal("1"), Decimal("2"), Decimal("0.25"), Decimal("4"), Decimal("1.5"),
                                     Decimal(rng.randrange(1, 48 * 8)) / 48 if rng.random() < .5 else Decimal(rng.randrange(11, 8000)) / 1000])
     bpms = [(Fraction(0), bpmv())] + [(b, bpmv()) for b in beats(nmax) if b != 0]
     td = {"bpms": bpms,
@@ -181,15 +185,15 @@ def td_from_simfile(sf, chart=None):
     return {"bpms": g(t.bpms), "stops": g(t.stops), "delays": g(t.delays), "warps": g(t.warps), "offset": t.offset}
 
 
-def td_in_domain(td):
+def td_in_domain(td, zero_ok=False):
     from simfile.timing import Beat
     if not td["bpms"] or td["bpms"][0][0] != 0: return False
     for k in ("bpms", "stops", "delays", "warps"):
         bs = [b for b, _ in td[k]]
         if any(not a < b for a, b in zip(bs, bs[1:])): return False
         if any(b < 0 or (b * 48).denominator != 1 for b in bs): return False
-        if any(v <= 0 for _, v in td[k]): return False
-    if any(Beat(v) <= 0 for _, v in td["warps"]): return False
+        if any((v < 0 if (zero_ok and k != "bpms") else v <= 0) for _, v in td[k]): return False
+    if any((Beat(v) < 0 if zero_ok else Beat(v) <= 0) for _, v in td["warps"]): return False
     if any(v < 1 or v > 2000 for _, v in td["bpms"]): return False
     return True
 
